@@ -7,7 +7,7 @@
    C01 sequences in the persistent configurations with the cache on and off must all equal the
    same reference map. *)
 From Coq Require Import List NArith Bool.
-From Feox Require Import Gen.Constants Model.Bytes Model.Cache Proofs.CacheProofs.
+From Feox Require Import Gen.Constants Model.Bytes Model.Cache Proofs.CacheProofs Proofs.CacheSpareProofs.
 From Feox Require Import Model.Sched Model.CacheGen Proofs.CacheGenProofs.
 Import ListNotations.
 Local Open Scope N_scope.
@@ -37,13 +37,41 @@ Print Assumptions fresh_cache_consistent.
 Theorem eviction_reaches_the_low_watermark :
   forall c, CInv c -> cmem (cevict c) <= low c
 
-(* an explicit remove is never followed by a hit *).
+(* eviction does not take recently referenced entries when unreferenced ones suffice: if evicting
+   every unreferenced entry would reach the low watermark, every referenced entry is still there
+   after evict_entries (same key, bytes and size; its reference bit may have been cleared) *).
 Proof. exact cevict_reaches_low. Qed.
 Check eviction_reaches_the_low_watermark :
   forall c, CInv c -> cmem (cevict c) <= low c
 
-(* an explicit remove is never followed by a hit *).
+(* eviction does not take recently referenced entries when unreferenced ones suffice: if evicting
+   every unreferenced entry would reach the low watermark, every referenced entry is still there
+   after evict_entries (same key, bytes and size; its reference bit may have been cleared) *).
 Print Assumptions eviction_reaches_the_low_watermark.
+
+Theorem referenced_entries_spared_when_unreferenced_suffice :
+  forall c, CInv c -> cmem c <= low c + utotal (buckets c) ->
+  forall i e, In e (bget i (buckets c)) -> ce_ref e = true -> kept e (bget i (buckets (cevict c)))
+
+(* ... and the hypothesis is needed *).
+Proof. exact referenced_entries_are_spared. Qed.
+Check referenced_entries_spared_when_unreferenced_suffice :
+  forall c, CInv c -> cmem c <= low c + utotal (buckets c) ->
+  forall i e, In e (bget i (buckets c)) -> ce_ref e = true -> kept e (bget i (buckets (cevict c)))
+
+(* ... and the hypothesis is needed *).
+Print Assumptions referenced_entries_spared_when_unreferenced_suffice.
+
+Theorem without_enough_unreferenced_a_referenced_entry_goes :
+  exists c, CInv c /\ low c < cmem c /\ utotal (buckets c) = 0 /\ cmem (cevict c) < cmem c
+
+(* an explicit remove is never followed by a hit *).
+Proof. exact without_enough_unreferenced_some_referenced_entry_goes. Qed.
+Check without_enough_unreferenced_a_referenced_entry_goes :
+  exists c, CInv c /\ low c < cmem c /\ utotal (buckets c) = 0 /\ cmem (cevict c) < cmem c
+
+(* an explicit remove is never followed by a hit *).
+Print Assumptions without_enough_unreferenced_a_referenced_entry_goes.
 
 Theorem remove_is_never_followed_by_a_hit :
   forall c k, CInv c -> fst (cget (cremove c k) k) = None
